@@ -25,7 +25,10 @@ def planted():
     """deterministic histories: hash-colliding writes (known finding KF1), hash-equal writes (exempt),
     and every write path between two fingerprint() calls on a vector and on its table."""
     out = []
-    for a, b in [(1, -(P61 - 1)), (0, P61), (1, P61 + 1), (2, 2.0), (3, 5), (None, 0), (7, None)]:
+    for a, b in [(1, -(P61 - 1)), (0, P61), (1, P61 + 1), (2, 2.0), (3, 5), (None, 0), (7, None),
+                 # negative values against the value a power of two above them (hashes of negative ints are negative ints:
+                 # whatever "unsigned" reading is made of them must keep distinct hashes distinct modulo P)
+                 (-3, 5), (5, -3), (-8, 0), (-5, 3), (-2, 6), (-1, 15), (-3, 2 ** 61 - 4), (-7, 2 ** 64 - 7)]:
         out.append({"prog": [["newvec", [5, a, 7], "a", None], ["fp", 0], ["setv", 0, ["int", 1], ["s", b]], ["fp", 0]]})
         out.append({"prog": [["newtab_dict", [["a", [5, a, 7]], ["b", [1, 2, 3]]]], ["drop", 0], ["fp", 0],
                              ["sett", 0, ["cell", 1, 0, b]], ["fp", 0]]})
